@@ -181,3 +181,137 @@ def _(v):
     # every error code set by the C parser has a message; codes 1..6 are passed through from reb_particle_from_orbit_err
     v.ground("error_messages", all(k in cmsgs for k in cerrs) and all(k in cmsgs for k in range(1, 7)),
              "codes set: %s, messages for: %s" % (cerrs, sorted(cmsgs)))
+
+
+# ---------------------------------------------------------------------------- angle conventions (prograde / retrograde)
+P.trust("angle-conversion task: the conversion statements are extracted syntactically (an `if` on cos(inc) > 0 resp. "
+        "o.inc < M_PI/2. whose branches assign a linear combination of angles); the comparison itself is exact (sympy)")
+
+
+def _c_lin(n):
+    """linear combination of identifiers (a.b -> b) built from + and - only, as a sympy expression; None otherwise"""
+    import sympy as sp
+    n = _strip(n)
+    k = n.get("kind")
+    if k == "DeclRefExpr":
+        return sp.Symbol(n["referencedDecl"]["name"])
+    if k == "MemberExpr":
+        return sp.Symbol(n["name"])
+    if k == "UnaryOperator" and n.get("opcode") == "-":
+        a = _c_lin(n["inner"][0])
+        return None if a is None else -a
+    if k == "BinaryOperator" and n.get("opcode") in ("+", "-"):
+        a, b = _c_lin(n["inner"][0]), _c_lin(n["inner"][1])
+        if a is None or b is None:
+            return None
+        return a + b if n["opcode"] == "+" else a - b
+    return None
+
+
+def _c_branch_assignments(fn_body, is_prograde_test):
+    """{(var, 'prograde'|'retrograde'): expr} from `if (<test>) { var = lin; ... } else { var = lin; ... }`"""
+    out = {}
+
+    def assigns(stmt):
+        res = {}
+        stmt_list = stmt.get("inner", [stmt]) if stmt.get("kind") == "CompoundStmt" else [stmt]
+        for s in stmt_list:
+            s = _strip(s)
+            if s.get("kind") == "BinaryOperator" and s.get("opcode") == "=":
+                lhs = _c_lin(s["inner"][0])
+                rhs = _c_lin(s["inner"][1])
+                if lhs is not None and rhs is not None and lhs.is_Symbol:
+                    res[str(lhs)] = rhs
+            if s.get("kind") == "IfStmt" and len(s["inner"]) == 3:
+                # nested `if (o.e > MIN_ECC) l = pomega +- M; else (small-e approximation)`: the exact branch is the first
+                res.update({k: v for k, v in assigns(s["inner"][1]).items() if k not in res})
+        return res
+
+    def visit(n):
+        if n.get("kind") == "IfStmt" and len(n["inner"]) == 3 and is_prograde_test(n["inner"][0]):
+            for which, br in (("prograde", n["inner"][1]), ("retrograde", n["inner"][2])):
+                for var, e in assigns(br).items():
+                    out[(var, which)] = e
+    _walk(fn_body, visit)
+    return out
+
+
+def _is_cos_inc_positive(c):
+    """`cos(inc) > 0.`"""
+    from engine import frames
+    c = _strip(c)
+    if not (c.get("kind") == "BinaryOperator" and c.get("opcode") == ">"):
+        return False
+    l = _strip(c["inner"][0])
+    return l.get("kind") == "CallExpr" and frames.callee_name(l) == "cos" and "inc" in _declrefs(l, [])
+
+
+def _is_inc_below_half_pi(c):
+    """`o.inc < M_PI/2.`"""
+    c = _strip(c)
+    if not (c.get("kind") == "BinaryOperator" and c.get("opcode") == "<"):
+        return False
+    l = _strip(c["inner"][0])
+    return l.get("kind") == "MemberExpr" and l.get("name") == "inc"
+
+
+def _py_lin(n):
+    import sympy as sp
+    if isinstance(n, ast.Name):
+        return sp.Symbol(n.id)
+    if isinstance(n, ast.UnaryOp) and isinstance(n.op, ast.USub):
+        a = _py_lin(n.operand)
+        return None if a is None else -a
+    if isinstance(n, ast.BinOp) and isinstance(n.op, (ast.Add, ast.Sub)):
+        a, b = _py_lin(n.left), _py_lin(n.right)
+        if a is None or b is None:
+            return None
+        return a + b if isinstance(n.op, ast.Add) else a - b
+    return None
+
+
+def _py_branch_assignments():
+    src = open(os.path.join(REPO, "rebound", "particle.py")).read()
+    out = {}
+    for node in ast.walk(ast.parse(src)):
+        if isinstance(node, ast.If) and re.sub(r"\s+", "", ast.unparse(node.test)) == "math.cos(inc)>0" and node.orelse:
+            for which, body in (("prograde", node.body), ("retrograde", node.orelse)):
+                for s in body:
+                    if isinstance(s, ast.Assign) and isinstance(s.targets[0], ast.Name):
+                        e = _py_lin(s.value)
+                        if e is not None:
+                            out[(s.targets[0].id, which)] = e
+    return out
+
+
+@P.task("parsers.angle_conversions", fn=CFN)
+def _(v):
+    """omega from pomega, f from theta and M from l, for prograde and retrograde orbits: (1) the C and the Python front end
+    use the same formula; (2) the formula inverts the convention under which reb_orbit_from_particle_err reports pomega,
+    theta and l (so that creating a particle and reading the element back returns it)."""
+    import sympy as sp
+    tu, fn = v.eng.find_function(CFN)
+    cpars = _c_branch_assignments(tu.body(fn), _is_cos_inc_positive)
+    tu2, rd = v.eng.find_function("reb_orbit_from_particle_err")
+    reader = _c_branch_assignments(tu2.body(rd), _is_inc_below_half_pi)
+    py = _py_branch_assignments()
+    want = [(x, w) for x in ("omega", "f", "M") for w in ("prograde", "retrograde")]
+    v.ground("c_parser.conversions_found", all(k in cpars for k in want), "found %s" % sorted(cpars))
+    v.ground("python_parser.conversions_found", all(k in py for k in want), "found %s" % sorted(py))
+    rwant = [(x, w) for x in ("pomega", "theta", "l", "f") for w in ("prograde", "retrograde")]
+    v.ground("reader.conventions_found", all(k in reader for k in rwant), "found %s" % sorted(reader))
+    if not (all(k in cpars for k in want) and all(k in py for k in want) and all(k in reader for k in rwant)):
+        return
+    Om, om, f, M = sp.symbols("Omega omega f M")
+    for w in ("prograde", "retrograde"):
+        # reader: o.f = wpf - o.omega defines wpf = omega + f
+        wpf = sp.Symbol("wpf")
+        sol = sp.solve(sp.Eq(sp.Symbol("f"), reader[("f", w)]), wpf)
+        conv = {"pomega": reader[("pomega", w)], "theta": reader[("theta", w)].subs(wpf, sol[0] if sol else wpf),
+                "l": reader[("l", w)].subs(sp.Symbol("pomega"), reader[("pomega", w)])}
+        for var, given in (("omega", "pomega"), ("f", "theta"), ("M", "l")):
+            c, p = cpars[(var, w)], py[(var, w)]
+            v.ground("%s.%s_from_%s.c_equals_python" % (w, var, given), sp.simplify(c - p) == 0, "C: %s = %s; Python: %s = %s" % (var, c, var, p))
+            back = conv[given].subs(sp.Symbol(var), c)
+            v.ground("%s.%s_from_%s.inverts_the_reported_convention" % (w, var, given), sp.simplify(back - sp.Symbol(given)) == 0,
+                     "reader reports %s = %s; with the parser's %s = %s this gives %s" % (given, conv[given], var, c, sp.simplify(back)))
